@@ -1098,14 +1098,19 @@ def correspondence(ctx):
         # num_matches
         nq = [q for q in qs if q_mode(q) == "none"]  # attributes included: numMatches mirrors the unwrapped value
         batch.append(("nummatches", dict(db=dj, qs=[_model_q(q) for q in nq])))
-        meta.append(("num", nq, [db.num_matches(**{k: v for k, v in q.items() if v is not None and k != "allow_partial"}) for q in nq], dj))
+        meta.append(("num", nq, [db.num_matches(**{k: v for k, v in q.items() if v is not None and k != "allow_partial"}) for q in nq], dj,
+                     [len(list(db.get_records_matching(**{k: v for k, v in q.items() if v is not None}))) for q in nq]))
     replies = ctx.driver.batch(batch)
     for m, rep in zip(meta, replies):
         if m[0] == "num":
-            _, nq, real, dj = m
-            for q, a, b in zip(nq, rep, real):
+            _, nq, real, dj, scan = m
+            for q, a, b, sc in zip(nq, rep, real, scan):
                 out["evaluations"] += 1
-                if a != b:
+                if a != b and q.get("attributes") is not None and b == sc:
+                    # branch of the open finding C17-num-matches-attributes-exact: the model mirrors the unwrapped
+                    # comparison; a tree whose num_matches equals the scan here is right (spec_check decides)
+                    bump(out, "num_matches_attributes", "real-matches-scan-not-model")
+                elif a != b:
                     add_failure(out, "corr", "numMatches model differs from num_matches", dict(db=dj, q=q), a, b, confirmed=False)
             continue
         kind, how, dj, qs, real_f, real_r = m
@@ -1207,6 +1212,34 @@ def correspondence(ctx):
             add_failure(out, "corr", "loadGffBlocks model differs from load_annotations", dict(text=case["text"], lines_per_block=case["lines_per_block"]), mod, real, confirmed=False)
         else:
             out["nontrivial"].add(("gffload", case["text"], case["lines_per_block"]))
+
+    # ---- serialisation routes vs the record-list round-trip model, in-memory and file-backed sources
+    reqs, reals, metas = [], [], []
+    canon_db = lambda dj: [dj["kind"], {t: srt(canon_rec(r, attrs=True, exact=True) for r in rows) for t, rows in dj["tables"].items()}]
+    for i in range(ctx.budget(9, 60)):
+        kind, how = plans[i % len(plans)]
+        case = _one_block(build_case(rng, kind, how, rng.choice([1, 2, 4])))
+        for fb in (False, True):
+            for route in COPIES:
+                src = build_db(case, scratch, f"rt{i}")
+                if fb:
+                    src = copy_db(src, "write", scratch, f"rt{i}")
+                dj = db_json(src)
+                try:
+                    real = canon_db(db_json(copy_db(src, route, scratch, f"rt{i}")))
+                except Exception as e:  # noqa: BLE001
+                    real = f"raised {type(e).__name__}"
+                reqs.append(("roundtrip", dict(db=dj, route=route, file_backed=fb)))
+                reals.append(real)
+                metas.append(dict(kind=kind, how=how, route=route, file_backed=fb, n=sum(len(t) for t in dj["tables"].values())))
+    for meta, real, rep in zip(metas, reals, ctx.driver.batch(reqs)):
+        out["evaluations"] += 1
+        bump(out, "roundtrip", f"{meta['route']}:{'file' if meta['file_backed'] else 'mem'}")
+        mod = canon_db(rep) if "kind" in rep else rep
+        if json.dumps(mod, default=list) != json.dumps(real, default=list):
+            add_failure(out, "corr", "round-trip model differs from the real copy", meta, mod, real, confirmed=False)
+        elif meta["n"]:
+            out["nontrivial"].add(("roundtrip", json.dumps(meta), json.dumps(real, default=list)[:150]))
 
     # ---- op histories
     _op_histories(ctx, out, rng, scratch)
